@@ -248,7 +248,7 @@ theorem filterMap_getElem?_range (s : List β) (n : Nat) :
   induction n with
   | zero => simp
   | succ n ih =>
-    rw [List.range_succ, List.filterMap_append, ih, List.take_succ]
+    rw [List.range_succ, List.filterMap_append, ih, List.take_add_one]
     cases h : s[n]? <;> simp [h]
 
 theorem filterMap_getElem?_range_length (s : List β) :
